@@ -96,6 +96,7 @@ type ContractFile struct {
 	Preds   []*PredDecl
 	Funcs   []*FuncContract
 	GoDecls []string
+	PkgInvs []*Clause // invariants over package-level variables: established by init, never written afterwards
 	Consts  []*Clause // closed obligations over package-level constants
 	Lemmas  []*Clause
 }
@@ -185,11 +186,13 @@ func ParseContractFile(path string) (*ContractFile, error) {
 			lastExpr = &cf.GoDecls[len(cf.GoDecls)-1]
 			cur = nil
 			continue
-		case "const", "lemma":
+		case "const", "lemma", "pkginv":
 			e, lab := splitLabel(rest)
 			c := &Clause{Kind: word, Expr: e, Label: lab, Property: curProp, Line: ln}
 			if word == "const" {
 				cf.Consts = append(cf.Consts, c)
+			} else if word == "pkginv" {
+				cf.PkgInvs = append(cf.PkgInvs, c)
 			} else {
 				cf.Lemmas = append(cf.Lemmas, c)
 			}
